@@ -11,11 +11,13 @@ from harness import core, defs
 META = {"title": "CLI listings show each packet once, in order, and never hang or crash"}
 
 
-def make_file(dirn, n, name=None, tail=b""):
-    path = os.path.join(dirn, name or f"pk{n}.bin")
+def make_file(dirn, n, name=None, tail=b"", period=None):
+    """n packets; with `period`, packet k is byte-identical to packet k mod period (idle / retransmitted packets)"""
+    path = os.path.join(dirn, name or f"pk{n}{'' if period is None else '-p%d' % period}.bin")
     with open(path, "wb") as f:
         for k in range(n):
-            f.write(defs.mk_packet(bytes([k, 0xAB]), apid=100 + k, seq=k))
+            j = k if period is None else k % period
+            f.write(defs.mk_packet(bytes([j, 0xAB]), apid=100 + j, seq=j))
         f.write(tail)
     return path
 
@@ -106,6 +108,15 @@ def run(ctx):
                     prob = f"empty file: output {out[:200]!r}"
             elif listing_rows(out) != want:
                 prob = f"rows {listing_rows(out)} != specification {want}"
+            else:
+                # the same listing on files whose packets repeat: rows are positions, not distinct contents
+                for period in (1, 3):
+                    pf = make_file(tmp, n, period=period)
+                    rc2, out2, exc2 = in_process(["describe-packets", pf])
+                    want2 = [w if w < 0 else w % period for w in want]
+                    if rc2 != 0 or exc2 is not None or listing_rows(out2) != want2:
+                        prob = f"file of {n} packets repeating with period {period}: rows {listing_rows(out2)} != specification {want2} (exit {rc2})"
+                        break
             if prob:
                 ctx.violation("C19/describe-packets/" + ("rows" if "rows" in prob else "crash"), f"n={n}: {prob}", {"cmd": "describe", "n": n})
             elif n in (7, 11):
